@@ -372,6 +372,11 @@ def _late(ctx: Ctx, item=None):
     ctx.klass("late_construction_cases", n)
 
 
+def _threads(ctx: Ctx, item):
+    from .. import threads
+    threads.decode_pass(ctx, "C16", *item)
+
+
 def _aged(ctx: Ctx, item):
     """A decoder that has seen the whole database (a benign message of every definition, pre-combined and frame by frame, plus junk)
     must decode any further message exactly like a fresh decoder."""
@@ -453,6 +458,9 @@ def _aged(ctx: Ctx, item):
 
 def run(ctx: Ctx):
     pmap(ctx, _reclaim, [None])
+    from .. import threads as _th
+    tk = [d.key for d in _th.thread_definitions()]
+    pmap(ctx, _threads, [(tk[i::16], 2 if ctx.quick else 30, 1000) for i in range(16) if tk[i::16]])
     pmap(ctx, _late, [None])
     pmap(ctx, _aged, [(i, 16, 2 if ctx.quick else 40) for i in range(16)])
     n = 40 if ctx.quick else 1500
@@ -463,6 +471,9 @@ def run(ctx: Ctx):
 
 
 def replay(ctx: Ctx, case):
+    if case.get("threads"):
+        from .. import threads
+        return threads.decode_replay("C16", case)
     if case.get("late"):
         sub = Ctx(ctx.pid)
         sub.known_open = {}
